@@ -162,14 +162,67 @@ def run_job(task):
     res = dict(job=job['name'], paths=0, decisions=0, queries=0, solver_s=0.0, validated=0, replay_skipped=0,
                unproven=0, violations=[], inconclusive=[], harness_errors=[], samples=[], outcomes={},
                exhausted=False, functions={}, wall=0.0, bounds=job.get('bounds', {}))
+    ctl = make_forkctl(job, opts)
     try:
-        _run_job(pid, job, opts, res)
+        _run_job(pid, job, opts, res, ctl)
     except BaseException as e:
         if isinstance(e, KeyboardInterrupt):
             raise
         res['harness_errors'].append('job crashed: %s: %s\n%s' % (type(e).__name__, e, traceback.format_exc()[-1500:]))
+        if ctl is not None and ctl.is_child:
+            ctl.child_exit(dict(res=res, summary=None))
+    if ctl is not None:
+        parts = ctl.wait_all(opts.get('deadline'))
+        if parts is None:
+            res['inconclusive'].append('forked explorers did not finish before the deadline')
+        else:
+            merge_parts(res, parts)
+        import shutil
+        shutil.rmtree(ctl.scratch, ignore_errors=True)
+    for label in job.get('must_reach', ()):
+        if not any(k.startswith('ret:' + label) for k in res['outcomes']):
+            res['harness_errors'].append(f'vacuity: no path reached outcome "{label}" (outcomes: {list(res["outcomes"])[:8]})')
     res['wall'] = time.time() - t0
     return res
+
+
+FORK_ENV = {}
+
+
+def make_forkctl(job, opts):
+    if not job.get('fork', True) or os.environ.get('VERIF_NOFORK') or 'tokens' not in FORK_ENV:
+        return None
+    import tempfile
+    from .forkctl import ForkCtl
+    return ForkCtl(FORK_ENV['ctx'], tempfile.mkdtemp(prefix='vfork-', dir=FORK_ENV['scratch']), FORK_ENV['tokens'])
+
+
+def merge_parts(res, parts):
+    for part in parts:
+        r, summ = part.get('res'), part.get('summary')
+        if r is None:
+            continue
+        for k in ('paths', 'validated', 'replay_skipped', 'unproven'):
+            res[k] += r[k]
+        res['violations'].extend(r['violations'])
+        res['inconclusive'].extend(r['inconclusive'])
+        res['harness_errors'].extend(r['harness_errors'])
+        if len(res['samples']) < 8:
+            res['samples'].extend(r['samples'][:2])
+        if summ is None:
+            res['exhausted'] = False
+            continue
+        res['decisions'] += summ['decisions']
+        res['queries'] += summ['queries']
+        res['solver_s'] = round(res['solver_s'] + summ['solver_s'], 3)
+        res['unknown_queries'] = res.get('unknown_queries', 0) + summ['unknown_queries']
+        for k, v in summ['outcomes'].items():
+            res['outcomes'][k] = res['outcomes'].get(k, 0) + v
+        if not summ['exhausted']:
+            res['exhausted'] = False
+        if summ['stop']:
+            res['inconclusive'].append('a forked explorer stopped early: ' + summ['stop'])
+        res['functions'].update(part.get('functions', {}))
 
 
 def shrink_model(vm, model, cap):
@@ -184,7 +237,7 @@ def shrink_model(vm, model, cap):
     return None
 
 
-def _run_job(pid, job, opts, res):
+def _run_job(pid, job, opts, res, ctl=None):
     from .vm import VM, UNKNOWN
     mod = load_harness(pid)
     vm = VM(interp_prefixes=('lbry', 'harness'))
@@ -289,6 +342,19 @@ def _run_job(pid, job, opts, res):
         seen_viol[vkey] = seen_viol.get(vkey, 0) + 1
         res['inconclusive'].append(f'{kind}: {val}; inputs: {sample["inputs"]}')
 
+    if ctl is not None:
+        import signal
+        signal.signal(signal.SIGCHLD, signal.SIG_IGN)        # forked explorers are reaped automatically
+        vm.fork_ctl = ctl
+
+        def on_fork_child():
+            for k in ('paths', 'validated', 'replay_skipped', 'unproven'):
+                res[k] = 0
+            for k in ('violations', 'inconclusive', 'harness_errors', 'samples'):
+                res[k] = []
+            seen_viol.clear()
+        vm.on_fork_child = on_fork_child
+        vm.fork_collect = lambda summ: dict(res=res, summary=summ, functions=dict(vm.funcs_seen))
     summary = vm.explore(lambda v: v.call(fn, [v] + args, dict(job.get('kwargs', {}))),
                          max_paths=job.get('max_paths', 400000), on_path=on_path,
                          deadline=opts.get('deadline'))
@@ -301,10 +367,6 @@ def _run_job(pid, job, opts, res):
     if summary['stop']:
         res['inconclusive'].append('exploration stopped early: ' + summary['stop'])
     res['functions'] = dict(vm.funcs_seen)
-    required = job.get('must_reach', ())
-    for label in required:
-        if not any(k.startswith('ret:' + label) for k in summary['outcomes']):
-            res['harness_errors'].append(f'vacuity: no path reached outcome "{label}" (outcomes: {list(summary["outcomes"])[:8]})')
 
 
 # --------------------------------------------------------------------------------------------- property level
@@ -349,15 +411,18 @@ def run_pool(tasks):
     import tempfile
     if not tasks:
         return []
-    n = max(1, min(int(os.environ.get('VERIF_JOBS', '16')), len(tasks)))
+    ncpu = max(1, int(os.environ.get('VERIF_JOBS', '16')))
+    n = ncpu
     ctx = multiprocessing.get_context('fork')
     scratch = tempfile.mkdtemp(prefix='vcheck-')
+    tokens = ctx.Semaphore(ncpu)               # CPUs: one per running job process or forked explorer
+    FORK_ENV.update(ctx=ctx, tokens=tokens, scratch=scratch)
     results = []
     pending = list(enumerate(tasks))
     running = {}
     try:
         while pending or running:
-            while pending and len(running) < n:
+            while pending and len(running) < n and tokens.acquire(block=False):
                 i, task = pending.pop(0)
                 path = os.path.join(scratch, f'{i}.pkl')
                 p = ctx.Process(target=_child, args=(task, path), daemon=True)
@@ -372,6 +437,7 @@ def run_pool(tasks):
                     continue
                 p.join()
                 del running[i]
+                tokens.release()
                 if TRACE:
                     print(f'[done] {task[1]["name"]} {time.time() - t0:.1f}s', file=sys.stderr, flush=True)
                 if os.path.exists(path):
